@@ -139,7 +139,7 @@ func init() {
 		return []Val{{Typ: ft, T: c.Ite(c.Eq(err.T, c.Int(0)), f, c.Int(0))}, err}
 	}
 	libMods["os.Open"] = func(x *Exec, ms *modSet, e *ast.CallExpr) {
-		ms.add("alloc", SArr(SInt, SBool))
+		ms.add("ghost.brk", SInt)
 		ms.add("ghost.fid", SArr(SInt, SInt))
 		ms.add("ghost.fpos", SArr(SInt, x.idxSort()))
 		ms.add("ghost.iofail", SBool)
@@ -176,7 +176,7 @@ func init() {
 		return []Val{{Typ: ft, T: x.c.Ite(x.c.Eq(err.T, x.c.Int(0)), fi, x.c.Int(0))}, err}
 	}
 	libMods["os.File.Stat"] = func(x *Exec, ms *modSet, e *ast.CallExpr) {
-		ms.add("alloc", SArr(SInt, SBool))
+		ms.add("ghost.brk", SInt)
 		ms.add("ghost.fisize", SArr(SInt, x.idxSort()))
 	}
 	libModels["io/fs.FileInfo.Size"] = func(x *Exec, st *State, e *ast.CallExpr, recv *Val) []Val {
@@ -219,7 +219,7 @@ func init() {
 		return []Val{{Typ: fn.Type().(*types.Signature).Results().At(0).Type(), T: r}}
 	}
 	readerMod := func(x *Exec, ms *modSet, e *ast.CallExpr) {
-		ms.add("alloc", SArr(SInt, SBool))
+		ms.add("ghost.brk", SInt)
 		ms.add("ghost.rfile", SArr(SInt, SInt))
 		ms.add("ghost.rpos", SArr(SInt, x.idxSort()))
 	}
